@@ -568,6 +568,7 @@ class Patches(object):
         self.sched, self.seed = sched, seed
         self.events = events if events is not None else []
         self.lost = {}
+        self.owed_dm = []           # (addr, peer) of sockets closed while the DM for the peer's DISC was not yet sent
         self.saved = []
 
     def _window_events(self):
@@ -575,6 +576,7 @@ class Patches(object):
         x = an I PDU reaches the socket, r = the application takes a message, a = V(RA) moves"""
         D = nfc.llcp.tco.DataLinkConnection
         ev, lost = self.events, self.lost
+        dm_sent = {}
 
         def digest(sock):
             return "%d:%d:%d:%d:%d" % (sum(1 for p in sock.recv_queue if p.name == "I"), sock.recv_confs,
@@ -601,6 +603,8 @@ class Patches(object):
         def dequeue(sock, miu_size, icv_size):
             ack = sock.recv_ack
             r = real_deq(sock, miu_size, icv_size)
+            if r is not None and r.name == "DM":
+                dm_sent[id(sock)] = dm_sent.get(id(sock), 0) + 1
             if sock.recv_ack != ack:
                 ev.append((sock, "a", digest(sock)))
             return r
@@ -611,6 +615,18 @@ class Patches(object):
             if sock.recv_ack != ack:
                 ev.append((sock, "a", digest(sock)))
             return r
+        real_close, owed = D.close, self.owed_dm
+
+        def close(sock):
+            # the answer to the peer's DISC is still in the send queue: does it go out, or is it cleared with the queue?
+            pending = sum(1 for p in sock.send_queue if p.name == "DM") if sock.state.CLOSE_WAIT and sock.is_bound else 0
+            before = dm_sent.get(id(sock), 0)
+            r = real_close(sock)
+            if pending and dm_sent.get(id(sock), 0) < before + pending:
+                owed.append((sock.addr, sock.peer))
+            return r
+        self.saved.append((D, "close", D.close))
+        D.close = close
         for name, fn in (("enqueue", enqueue), ("recv", recv), ("dequeue", dequeue), ("sendack", sendack)):
             self.saved.append((D, name, getattr(D, name)))
             setattr(D, name, fn)
@@ -701,6 +717,7 @@ class Stack(object):
         s = self.sched
         with Patches(s, self.seed, self.events) as patches:
             self.discards = patches.lost        # id(socket) -> I PDUs dropped by a full receive queue
+            self.owed_dm = patches.owed_dm
             for side in "IT":
                 clf = nfc.ContactlessFrontend()
                 clf.device = AirDevice(self.air, side, self.comm)
